@@ -21,6 +21,9 @@ func attachMonitors(w *World) {
 	if w.want["C11"] {
 		monC11(w)
 	}
+	if w.want["C04"] {
+		monC04(w)
+	}
 	if w.want["C08"] {
 		monC08(w)
 	}
